@@ -1477,7 +1477,14 @@ pub fn control(label: &str, b: B) {
         v.push(&b);
         let to = e.cfg.prove_timeout_ms;
         let (vd, _) = e.check(&v, true, to, false, None);
-        if vd == Verdict::Sat { e.stats.controls_ok += 1; } else { e.control_failures.push(format!("{}: {:?}", label, vd)); }
+        if vd == Verdict::Sat { e.stats.controls_ok += 1; } else {
+            // a path whose own condition is unsatisfiable was entered only because a feasibility
+            // query timed out: it is an infeasible path (vacuous, harmless), not a vacuous harness
+            let pcv: Vec<&B> = pc.iter().collect();
+            let (vp, _) = e.check(&pcv, false, to, false, None);
+            if vp == Verdict::Unsat { e.stats.controls -= 1; e.stats.paths_pruned += 1; e.notes.push(format!("path {:?} entered on an undecided feasibility query is infeasible", e.trace)); }
+            else { e.control_failures.push(format!("{}: {:?}", label, vd)); }
+        }
     })
 }
 
